@@ -36,16 +36,14 @@ META = {
 
 
 def run(ctx, rep):
-    encf = ctx.api("encoder")
     import re as _re
     shape = _re.compile(r"^\[\{\}[A-Za-z]+\{\}\]$")
-    frag = None
-    for q in ctx.cg.region(encf):
-        g = ctx.db.funcs[q]
-        if g.module.name == encf.module.name and sum(1 for _, t, _ in format_templates(ctx, g) if shape.match(t)) >= 2:
-            frag = g
-    if frag is None:
-        raise AnalysisError("fragment printer not found")
+    from rules.shared import fragment_printer, token_templates
+    encf, frag = fragment_printer(ctx)
+    templates = [(o, n, t, a) for o, n, t, a in token_templates(ctx, frag) if shape.match(t)]
+    if len(templates) < 2:
+        raise AnalysisError("ring / branch token templates not found in the fragment printer or its helpers")
+    helpers = {o for o, _n, _t, _a in templates if o is not frag}
     gsi = ctx.fn("selfies.grammar_rules.get_selfies_from_index")
 
     class H(Hooks):
@@ -53,7 +51,7 @@ def run(ctx, rep):
             self.idx_calls = []
 
         def on_call(self, eng, fr, node, callee, args, kwargs, st):
-            if callee is gsi and fr.depth == 0:
+            if callee is gsi and (fr.func is frag or fr.func in helpers) and fr.depth <= 1:
                 t = ("Qsyms", next(eng.counter))
                 self.idx_calls.append((node, args[0] if args else None, st, t))
                 return Unk(t)
@@ -108,8 +106,14 @@ def run(ctx, rep):
                    nontrivial=True, key="ring-offset/" + ("ok" if not probs else sorted(set(probs))[0][:40]))
             # emitted at the atom whose out-bonds are iterated: bond.src == curr
             loop_ok = False
+            anchor = node
+            if not any(x is node for x in ast.walk(frag.node)):
+                # the index is computed in a helper: the helper's call in the fragment printer marks the position
+                for s_ in ctx.cg.sites(frag):
+                    if any(hh in helpers for hh in s_.callees) and any(x is node for hh in s_.callees for x in ast.walk(hh.node)):
+                        anchor = s_.node
             for n in own_nodes(frag.node):
-                if isinstance(n, ast.For) and any(x is node for x in ast.walk(n)):
+                if isinstance(n, ast.For) and any(x is anchor for x in ast.walk(n)):
                     it = unparse(n.iter)
                     names = [x.id for x in ast.walk(n.iter) if isinstance(x, ast.Name)]
                     defs = [d for d in own_nodes(frag.node) if isinstance(d, ast.Assign) and isinstance(d.targets[0], ast.Name)
@@ -180,9 +184,8 @@ def run(ctx, rep):
                    witness="; ".join(probs) or None, nontrivial=True, key="bond/%d/%r" % (order, stereo))
     # ---- R4 arity
     n4 = 0
-    for node, tmpl, args in format_templates(ctx, frag):
-        if not shape.match(tmpl):
-            continue
+    from rules.shared import emits_name
+    for owner, node, tmpl, args in templates:
         n4 += 1
         probs = []
         a1 = args[1]
@@ -191,17 +194,40 @@ def run(ctx, rep):
         else:
             nm = a1.args[0].id
             # nm is assigned from get_selfies_from_index(...) and its elements are appended after the symbol
-            defs = [n for n in own_nodes(frag.node) if isinstance(n, ast.Assign) and isinstance(n.targets[0], ast.Name) and n.targets[0].id == nm
+            defs = [n for n in own_nodes(owner.node) if isinstance(n, ast.Assign) and isinstance(n.targets[0], ast.Name) and n.targets[0].id == nm
                     and isinstance(n.value, ast.Call) and unparse(n.value.func).endswith("get_selfies_from_index")]
             if not defs:
                 probs.append("suffix does not count the symbols returned by get_selfies_from_index")
-            from rules.shared import emits_name
-            loops = [n for n in own_nodes(frag.node) if isinstance(n, ast.For) and isinstance(n.iter, ast.Name) and n.iter.id == nm
-                     and isinstance(n.target, ast.Name)
-                     and any(isinstance(c, ast.Call) and emits_name(ctx, frag, c, n.target.id) for c in ast.walk(n))]
+            scope, local = frag, nm
+            if owner is not frag:
+                # the helper returns (symbol, index symbols): follow the returned list into the fragment printer
+                local = None
+                pos = None
+                for r in own_nodes(owner.node):
+                    if isinstance(r, ast.Return) and isinstance(r.value, ast.Tuple):
+                        for j, e_ in enumerate(r.value.elts):
+                            if isinstance(e_, ast.Name) and e_.id == nm:
+                                pos = j
+                for s_ in ctx.cg.sites(frag):
+                    if owner in s_.callees and pos is not None:
+                        for n in own_nodes(frag.node):
+                            if isinstance(n, ast.Assign) and n.value is s_.node and isinstance(n.targets[0], ast.Tuple) \
+                                    and pos < len(n.targets[0].elts) and isinstance(n.targets[0].elts[pos], ast.Name):
+                                local = n.targets[0].elts[pos].id
+            loops = []
+            if local is not None:
+                for n in own_nodes(scope.node):
+                    if not (isinstance(n, ast.For) and isinstance(n.target, ast.Name)):
+                        continue
+                    it = n.iter
+                    iter_ok = (isinstance(it, ast.Name) and it.id == local) or \
+                              (isinstance(it, ast.BinOp) and isinstance(it.op, ast.Add) and isinstance(it.right, ast.Name) and it.right.id == local
+                               and isinstance(it.left, ast.List) and len(it.left.elts) == 1)      # [symbol] + index symbols
+                    if iter_ok and any(isinstance(c, ast.Call) and emits_name(ctx, scope, c, n.target.id) for c in ast.walk(n)):
+                        loops.append(n)
             if not loops:
                 probs.append("the counted index symbols are not the ones emitted after the symbol")
-        rep.ob("R4", not probs, node, frag, construct="suffix of %s" % tmpl, how="len(Q symbols), and exactly those symbols follow",
+        rep.ob("R4", not probs, node, owner, construct="suffix of %s" % tmpl, how="len(Q symbols), and exactly those symbols follow",
                witness="; ".join(probs) or None, nontrivial=True, key="arity/%s" % tmpl)
     for name in ("_PROCESS_RING_CACHE", "_PROCESS_BRANCH_CACHE"):
         tab = fo.global_value("selfies.grammar_rules", name)
